@@ -70,6 +70,9 @@ func runC04(r *engine.Run) {
 	r.Rule("FRESH-node", "see C03: a pending change whose bytes are overwritten in place is saved under a hash that no longer matches it")
 	r.Rule("WHO-livedelete", "in the trie operations, a node N fetched with key K (N = getNode(K), or N, K returned together by insert/delete/insertNode) that is handed to deleteNode never has K installed as a child reference (NewExtensionNode / insertExtension / PutChild argument, store to NodeKey) on a path through that deleteNode call: a node the rebuilt trie still references is not removed from the store nor recorded dead")
 	r.Rule("DOM-samekey", "in insertNode the change collector is told AddChange(old, new) only when there is no old node or bytes.Equal(old key, new key) tested false: an unchanged re-write does not put a live hash into the dead set")
+	r.Rule("ERR-guard", "see C17, applied to the whole package including the node stores and the save path: a failed store write or read is never turned into success")
+	r.Rule("ERR-dropped", "see C17: the error of every store operation (PutNode, MultiPutNode, DeleteNode, GetNode, batch writes) is looked at")
+	r.Rule("DOM-recorded", "in ChangeCollector.AddChange every store into Changes is keyed by the new node's hash and holds a change whose New field was set to the new node, and every return is reached through such a store except the cancel-out (new node equal to the Old of the chain it closes, bytes.Equal tested true)")
 	r.NotDec = append(r.NotDec, "completeness of the change set for every history (needs the map semantics of C01)", "RocksDB's own crash behaviour")
 	whoCollect(r)
 	orderKeySave(r)
@@ -78,6 +81,8 @@ func runC04(r *engine.Run) {
 	domCancel(r)
 	whoLiveDelete(r, "WHO-livedelete")
 	domSameKey(r, "DOM-samekey")
+	errGuard(r, "ERR-guard", "ERR-dropped", funcsOfPkg(r, pkgUtil), 40)
+	domRecorded(r, "DOM-recorded")
 }
 
 func whoCollect(r *engine.Run) {
@@ -495,5 +500,82 @@ func whoBatch(r *engine.Run) {
 		sameIdx = okKey && okVal && kidx == vidx
 		r.Check(sameIdx, rule, fmt.Sprintf("%s|put#%d key/value", fn(f), i+1), r.P.Pos(p.Pos()), "keys[i] written with the encoding of nodes[i]",
 			fmt.Sprintf("the batch does not pair keys[i] with Encode() of nodes[i] (key ok=%v, value ok=%v, same index=%v)", okKey, okVal, sameIdx))
+	}
+}
+
+// domRecorded: AddChange records the new node. Every return of AddChange is
+// reached through a store into Changes under the new node's hash of a change
+// whose New field was set to the new node, except the cancel-out return (the
+// new node equals the Old of the chain it closes).
+func domRecorded(r *engine.Run, rule string) {
+	f := r.Fn(rule, pkgUtil, "ChangeCollector", "AddChange")
+	if f == nil {
+		return
+	}
+	newP := f.Params[2]
+	stores := map[*ssa.BasicBlock]bool{}
+	n := 0
+	o := ord{}
+	engine.Instrs(f, func(in ssa.Instruction) {
+		mu, ok := in.(*ssa.MapUpdate)
+		if !ok {
+			return
+		}
+		if fld := fieldLoadOf(mu.Map); fld == nil || fld.Name() != "Changes" {
+			return
+		}
+		n++
+		// key: GetHash() of the new node
+		keyOK := isInvokeOf(mu.Key, "GetHash", isValue(newP))
+		// the stored change has New = newNode, assigned before the store
+		newSet := false
+		for _, ref := range engine.Referrers(mu.Value) {
+			if fa, ok := ref.(*ssa.FieldAddr); ok && engine.FieldOf(fa).Name() == "New" {
+				for _, r2 := range engine.Referrers(fa) {
+					if st, ok := r2.(*ssa.Store); ok && st.Addr == ssa.Value(fa) && st.Val == ssa.Value(newP) && engine.InstrDominates(st, mu) {
+						newSet = true
+					}
+				}
+			}
+		}
+		if keyOK && newSet {
+			stores[mu.Block()] = true
+		}
+		r.Check(keyOK && newSet, rule, o.next(fn(f)+"|record"), r.P.Pos(mu.Pos()), "the change is stored under the new node's hash with New set to the new node",
+			fmt.Sprintf("a change is recorded under a key other than the new node's hash or without the new node (key is the new hash: %v, New assigned: %v): the save writes the wrong node or nothing for this hash", keyOK, newSet))
+	})
+	// the cancel-out comparison
+	var cancel []*ssa.Call
+	engine.Instrs(f, func(in ssa.Instruction) {
+		if c, ok := in.(*ssa.Call); ok && extCalleeIs(c, "bytes", "", "Equal") {
+			cancel = append(cancel, c)
+		}
+	})
+	for _, ret := range engine.Returns(f) {
+		if ret.Block().Comment == "recover" {
+			continue
+		}
+		n++
+		good := stores[ret.Block()]
+		if !good {
+			paths, ok := engine.PathFactsAvoid(f, ret.Block(), stores, 4096)
+			good = ok
+			for _, p := range paths {
+				cancelled := false
+				for _, c := range cancel {
+					if v, had := p[engine.ValKey(c)]; had && v {
+						cancelled = true
+					}
+				}
+				if !cancelled {
+					good = false
+				}
+			}
+		}
+		r.Check(good, rule, o.next(fn(f)+"|return"), r.P.Pos(ret.Pos()), "every path to the return records the new node or is the cancel-out of a chain that ends where it started",
+			"AddChange can return without recording the new node: the node is in the trie but not among the pending changes, so a save does not write it and the saved root has a missing node")
+	}
+	if n < 5 {
+		r.Anchor(rule, fmt.Errorf("unresolved anchor: %d record/return sites in AddChange", n))
 	}
 }
